@@ -280,15 +280,35 @@ func (env *Env) eval(e ast.Expr) *Val {
 				if n, exact := constant.Int64Val(ix.C); exact && n >= 0 && int(n) < len(base.Elems) {
 					return base.Elems[n]
 				}
+				env.fail(e, "index out of range")
 			}
 		}
 		env.fail(e, "index "+types.ExprString(e))
 	case *ast.SliceExpr:
-		// levels[:] - the whole of an evaluated table
-		if x.Low == nil && x.High == nil && x.Max == nil {
-			if base := env.eval(x.X); base != nil && base.IsSlice {
+		// levels[:] - the whole of an evaluated table; arr[:n] / arr[n+1:] - a window of it
+		if base := env.eval(x.X); base != nil && base.IsSlice && x.Max == nil {
+			lo, hi := 0, len(base.Elems)
+			bound := func(b ast.Expr) int {
+				v := env.eval(b)
+				if v == nil || v.C == nil || v.C.Kind() != constant.Int {
+					env.fail(e, "slice bound that is not a number")
+				}
+				n, _ := constant.Int64Val(v.C)
+				return int(n)
+			}
+			if x.Low != nil {
+				lo = bound(x.Low)
+			}
+			if x.High != nil {
+				hi = bound(x.High)
+			}
+			if lo == 0 && hi == len(base.Elems) {
 				return base
 			}
+			if lo < 0 || hi > len(base.Elems) || lo > hi {
+				env.fail(e, "slice bounds out of range")
+			}
+			return &Val{IsSlice: true, Elems: base.Elems[lo:hi]}
 		}
 		env.fail(e, "slice expression")
 	case *ast.FuncLit:
@@ -461,6 +481,14 @@ func (env *Env) evalCall(c *ast.CallExpr) *Val {
 					return intVal(int64(len(v.Elems)))
 				}
 				env.fail(c, "len of non-constant")
+			case "new":
+				// new(T): a pointer to the zero value (of a type parameter: an empty struct-like zero)
+				if tv, ok := info.Types[c.Args[0]]; ok {
+					if z := zeroVal(tv.Type); z != nil {
+						return &Val{Ptr: z}
+					}
+				}
+				return &Val{Ptr: &Val{Fields: map[string]*Val{}, Complete: true}}
 			case "max", "min":
 				best := env.eval(c.Args[0])
 				for _, a := range c.Args[1:] {
